@@ -88,3 +88,59 @@ Definition ifac_call (maxc : Z) (m : fmemo) (n : Z) : Z * fmemo :=
     let v := ifac_loop (Z.to_nat (n - fm_len m + 1)) (fm_len m) n (fm_last m) in
     let newlen := Z.max (fm_len m) (Z.min (n + 1) (maxc + 1)) in
     (v, {| fm_len := newlen; fm_last := ifac_loop (Z.to_nat (newlen - fm_len m)) (fm_len m) (newlen - 1) (fm_last m) |}).
+
+(* ---- model of libintmath.ifib (Dijkstra's logarithmic algorithm) with its cache of the values below 250 ----
+   a, b, p, q = 1, 0, 0, 1;  while n: if n & 1: (a, b) := T_pq(a, b); n -= 1  else: (p, q) := (p^2+q^2, q^2+2pq); n >>= 1;  return b *)
+Definition fibT (p q : Z) (ab : Z * Z) : Z * Z := let '(a, b) := ab in (b * q + a * q + a * p, b * p + a * q).
+Fixpoint ifib_loop (n : positive) (a b p q : Z) : Z :=
+  match n with
+  | xH => snd (fibT p q (a, b))
+  | xO n' => ifib_loop n' a b (p * p + q * q) (q * q + 2 * p * q)
+  | xI n' => let '(a', b') := fibT p q (a, b) in ifib_loop n' a' b' (p * p + q * q) (q * q + 2 * p * q)
+  end.
+Definition ifib_nonneg (n : Z) : Z := match n with Zpos k => ifib_loop k 1 0 0 1 | _ => 0 end.
+
+(* the cache: association list n -> value; a computed value is stored when n < 250 *)
+Definition fcache := list (Z * Z).
+Fixpoint fc_get (c : fcache) (n : Z) : option Z :=
+  match c with [] => None | (k, v) :: r => if k =? n then Some v else fc_get r n end.
+Definition ifib_call_nonneg (c : fcache) (n : Z) : Z * fcache :=
+  match fc_get c n with
+  | Some v => (v, c)
+  | None => let b := ifib_nonneg n in (b, if n <? 250 then (n, b) :: c else c)
+  end.
+Definition ifib_call (c : fcache) (n : Z) : Z * fcache :=
+  if n <? 0 then let '(v, c') := ifib_call_nonneg c (- n) in ((-1) ^ (- n + 1) * v, c') else ifib_call_nonneg c n.
+(* a sequence of calls threading the cache *)
+Fixpoint fib_calls (c : fcache) (ns : list Z) : list Z :=
+  match ns with [] => [] | n :: r => let '(v, c') := ifib_call c n in v :: fib_calls c' r end.
+
+(* ---- model of libintmath.ifac2 (double factorial) with its two memo dictionaries (one per parity) ----
+   memo = memo_pair[n & 1]; f = memo.get(n); if f: return f; k = max(memo); p = memo[k];
+   while k < n: k += 2; p *= k; if k <= MAX: memo[k] = p;  return p *)
+Fixpoint fc_maxkey (c : fcache) (best : Z) : Z :=
+  match c with [] => best | (k, _) :: r => fc_maxkey r (Z.max best k) end.
+Fixpoint ifac2_loop (fuel : nat) (maxc k n p : Z) (c : fcache) : Z * fcache :=
+  match fuel with
+  | O => (p, c)
+  | S f => if k <? n then
+             let k' := k + 2 in let p' := p * k' in
+             ifac2_loop f maxc k' n p' (if k' <=? maxc then (k', p') :: c else c)
+           else (p, c)
+  end.
+Definition ifac2_memo_call (maxc : Z) (c : fcache) (n : Z) : Z * fcache :=
+  match fc_get c n with
+  | Some v => if v =? 0 then (0, c) else (v, c)       (* `if f:` — a stored 0 would fall through; values are never 0 *)
+  | None =>
+      let k := fc_maxkey c 0 in
+      match fc_get c k with
+      | Some p => ifac2_loop (Z.to_nat n) maxc k n p c
+      | None => (0, c)                                  (* unreachable: max(memo) is a key *)
+      end
+  end.
+(* the pair of dictionaries *)
+Definition ifac2_call (maxc : Z) (cs : fcache * fcache) (n : Z) : Z * (fcache * fcache) :=
+  if Z.odd n then let '(v, c') := ifac2_memo_call maxc (snd cs) n in (v, (fst cs, c'))
+  else let '(v, c') := ifac2_memo_call maxc (fst cs) n in (v, (c', snd cs)).
+Fixpoint fac2_calls (maxc : Z) (cs : fcache * fcache) (ns : list Z) : list Z :=
+  match ns with [] => [] | n :: r => let '(v, cs') := ifac2_call maxc cs n in v :: fac2_calls maxc cs' r end.
